@@ -16,7 +16,8 @@ from engine import Finding, Result
 CFGS = [("csv", "auto"), ("csv", "noauto"), ("mem", "auto"), ("mem", "noauto")]
 # csv.QUOTE_ALL = 1, QUOTE_NONNUMERIC = 2 (JSON-friendly)
 DIALECTS = [{"delimiter": ";"}, {"delimiter": "\t"}, {"quotechar": "'"}, {"quoting": 1},
-            {"delimiter": "|", "quotechar": "'"}, {"doublequote": False, "escapechar": "\\"}]
+            {"delimiter": "|", "quotechar": "'"}, {"doublequote": False, "escapechar": "\\"},
+            {"flush_on_insert": False}, {"flush_on_insert": False, "delimiter": ";"}]
 
 
 def probes():
@@ -71,7 +72,7 @@ def gen_history(g, n, csv, w, malformed, bulk=0):
     ops = []
     if bulk:
         ops.append(bulk_insert(g, bulk))
-        if r.random() < 0.7:
+        if g.tbase == 0 and r.random() < 0.7:
             g.tbase = bulk         # later points are mostly newer than the bulk: the index stays valid
         # per-measurement getters over the many positions, through the database and through a handle
         m = V.hx(r.choice(g.meas))
@@ -218,6 +219,8 @@ class Family:
                     g.hard = True             # quotes, delimiters, line breaks under that dialect
             if (i // 4) % 7 == 3:
                 g.wide = True                 # numbers with colliding hashes as values and operands
+            if (i // 4) % 23 == 9:
+                g.tbase = -G.T0 - 3           # instants around the epoch: -3 … +5 µs (a zero timestamp is falsy)
             bulk = 0
             if (i // 4) % 16 == 5:
                 bulk = g.r.randint(9, 48)     # beyond the sizes at which small-set / small-dict behaviour ends
@@ -355,6 +358,7 @@ class Family:
             res.findings += self.error_scenarios()
         if self.prop == "C06":
             res.findings += self.failed_rebuild()
+            res.findings += self.reentrant_insert()
         res.findings.sort(key=lambda f: (f.signature is not None, f.kind == "correspondence"))
         res.notes.append(f"disagreements attributed to other properties (reported by their own checks): {foreign}")
         return res
@@ -511,6 +515,72 @@ class Family:
             shutil.rmtree(root, ignore_errors=True)
         return out[:2]
 
+    def reentrant_insert(self):
+        """`insert_multiple` consuming a generator that reads the same database between yields ("insert if absent"):
+        every read may rebuild the index in the middle of the call; afterwards a valid index must equal a rebuilt one"""
+        import shutil
+        import tempfile
+
+        tf = C.import_tinyflux()
+        from tinyflux.index import Index
+        from tinyflux.storages import MemoryStorage
+        from impl import ImplRunner
+
+        R = ImplRunner.__new__(ImplRunner)
+        R.tf = tf
+        out = []
+        root = tempfile.mkdtemp(prefix="vf_reent_")
+        orders = [[3, 1, 2, 4], [1, 2, 3, 4], [4, 3, 2, 1], [2, 2, 1, 5, 0], [5, 6, 1, 7, 8, 2]]
+        try:
+            n = 0
+            for st in ("mem", "csv"):
+                for start_invalid in (False, True):
+                    for order in orders:
+                        n += 1
+                        db = (tf.TinyFlux(storage=MemoryStorage, auto_index=True) if st == "mem"
+                              else tf.TinyFlux(os.path.join(root, f"r{n}.csv"), auto_index=True))
+                        db.insert(tf.Point(time=V.dt_of(G.T0 + 10), tags={"a": "base"}, fields={"f": 0}))
+                        if start_invalid:
+                            db.insert(tf.Point(time=V.dt_of(G.T0 - 10), tags={"a": "early"}))    # out of order: invalid
+                        batch = [tf.Point(time=V.dt_of(G.T0 + 100 + k), measurement=("m1" if k % 2 else "m2"),
+                                          tags={"a": "x", "id": str(j)}, fields={"f": k}) for j, k in enumerate(order)]
+
+                        def absent(db=db, batch=batch):
+                            for p in batch:
+                                if not db.contains(tf.TimeQuery() == p.time):     # a read in the middle of the insert
+                                    yield p
+
+                        try:
+                            db.insert_multiple(absent())
+                        except Exception as e:
+                            out.append(Finding("impl-vs-spec", f"{st}: insert_multiple(generator reading the database) raised {type(e).__name__}: {e}",
+                                               dict(family="hist-reentrant", storage=st, order=order)))
+                            continue
+                        contents = [db._storage._deserialize_storage_item(i) for i in db._storage]
+                        problems = []
+                        if db.index.valid:
+                            fresh = Index()
+                            fresh.build(contents)
+                            for pr in probes():
+                                a1, a2 = safe_idx(R, db.index, pr), safe_idx(R, fresh, pr)
+                                if a1 != a2:
+                                    problems.append(f"{V.sx(pr)} answers {a1}, a rebuilt index {a2}")
+                                    break
+                        c = db.count(tf.TagQuery().a == "x")
+                        want = len({k for k in order})
+                        if c != want or len(db) != len(contents):
+                            problems.append(f"count(a == 'x') = {c} (distinct times inserted: {want}), len(db) = {len(db)}, stored {len(contents)}")
+                        db.close()
+                        if problems:
+                            out.append(Finding(
+                                "impl-vs-spec",
+                                f"{st}/auto, index {'invalid' if start_invalid else 'valid'} at the start: insert_multiple of a generator that calls "
+                                f"db.contains() before each yield, times +{order}: " + "; ".join(problems)[:500],
+                                dict(family="hist-reentrant", storage=st, order=order, start_invalid=start_invalid, observed=problems)))
+        finally:
+            shutil.rmtree(root, ignore_errors=True)
+        return out[:1]
+
     def failed_rebuild(self):
         """a rebuild of the index that fails part-way (a transient read error after k rows of the scan) must
         leave nothing behind: the next successful rebuild answers like a fresh index over the same storage"""
@@ -631,6 +701,10 @@ def signature(case, d):
 
 
 def replay(payload):
+    if payload.get("family") == "hist-reentrant":
+        r = Family("C06").reentrant_insert()
+        print(r[0].summary if r else "re-entrant insert scenario passes")
+        return bool(r)
     if payload.get("family") == "hist-error-scenario":
         r = Family("C11").error_scenarios(only=payload.get("scenario"))
         for f in r:
